@@ -128,7 +128,16 @@ def case(s, idx, kind):
     ro1 = s.load(ro_txt)
     m = message_object(s, msg_txt, via_reader)
     t0 = str(m)
-    ro1, err, wl = s.add(ro1, m)
+    if idx % 4 == 2:
+        # the documented method called directly - msg.merge(ro) - is the same operation as ro + msg
+        import warnings as _W
+        from .. import attach as _attach
+        with _W.catch_warnings(record=True) as wl:
+            _W.simplefilter('always')
+            ro1, err = _attach.direct_merge(ro1, m)
+        s.hist['first_merges_through_msg.merge'] += 1
+    else:
+        ro1, err, wl = s.add(ro1, m)
     judged = s.drain_and_judge(None, ctx)
     if err is not None:
         s.hist['c13_first_merge_failed'] += 1
@@ -461,6 +470,56 @@ def replay_content_only(s, w):
             return
 
 
+def refused_first_merge(s):
+    """The first merge of a message object ends in an exception that comes from the host - the duplicate report
+    turned into an error, a log handler that fails - after part of the message was applied. The object is then
+    used again: it is still what was sent, later edits to the running order do not reach it, and merging it into a
+    fresh running order equals merging a freshly parsed copy."""
+    new = lambda i: gen.simple_story(i, 2)
+    idx = 0
+    ro_txt = gen.grid_ro(['A', 'B', 'C'], 'none', pretty=False)
+    for kind, kw in [('roStoryInsert', dict(target='C', carried=[new('N1'), new('B')])),
+                     ('EAStoryInsert', dict(target='A', carried=[new('N1'), new('N2'), new('B')])),
+                     ('EAStoryInsert', dict(target=B.BLANK, carried=[new('N1'), new('A')])),
+                     ('roStoryDelete', dict(ids=['A', 'gone', 'B'])), ('EAItemDelete', dict(story_ref='B', ids=['B.0', 'gone']))]:
+        for host in ('error-filter', 'log-handler'):
+            idx += 1
+            if not s.mine(idx):
+                continue
+            msg_txt = B.msg_doc(kind, 50, **kw)
+            m = s.load(msg_txt)
+            t0 = str(m)
+            ro1 = s.load(ro_txt)
+            if host == 'error-filter':
+                ro1, err, _w = s.add(ro1, m, error_on=Warning)
+            else:
+                with K.failing_log_handler():
+                    ro1, err, _w = s.add(ro1, m)
+            s.drain_and_judge(None, {'refused-first-merge': host})
+            wit = {'type': 'c13', 'ro_txt': ro_txt, 'msg_txt': msg_txt, 'kind': kind, 'edits': []}
+            # edit whatever of the message has arrived
+            for k_, ed in enumerate([B.msg_doc('roItemDelete', 60, story_ref='N1', ids=['N1.0']),
+                                     B.msg_doc('roItemInsert', 61, story_ref='N1', target=B.BLANK, carried=[B.item('late', 'x')]),
+                                     B.msg_doc('roStorySend', 62, story_ref='N1', body=[B.E('p', 'rewritten')], fields=['BODY'])]):
+                ro1, _e, _v, _ev = s.step(ro1, ed, {'refused-first-merge': host, 'edit': k_})
+            s.evaluations += 1
+            same_text = str(m) == t0
+            ro2, e2, _ = s.add(s.load(ro_txt), m)
+            ro3, e3, _ = s.add(s.load(ro_txt), s.load(msg_txt))
+            s.drain_and_judge(None, {'refused-first-merge': host, 'phase': 'reuse'})
+            same_merge = str(ro2) == str(ro3) and type(e2) is type(e3)
+            s.note_sig(('refused-first-merge', kind, host, type(err).__name__ if err else 'returned', same_text, same_merge))
+            s.hist['refused_first_merge_cases'] += 1
+            if not same_text:
+                s.custom_violation('message-changed-by-later-merges-into-the-running-order',
+                                   {'kind': kind, 'first_merge_ended_with': type(err).__name__ if err else None, 'host': host},
+                                   wit, msg_kind=kind, status='refused-first')
+            if not same_merge:
+                s.custom_violation('re-merge-of-same-object-differs-from-fresh-copy',
+                                   {'kind': kind, 'first_merge_ended_with': type(err).__name__ if err else None, 'host': host},
+                                   wit, msg_kind=kind, status='refused-first')
+
+
 def repeated_carried(s):
     """Messages that carry one ID twice (stories of a roReplace / append / insert / replace, items of an
     item insert / replace): read, merged, merged again - the object stays what was sent."""
@@ -488,8 +547,10 @@ def repeated_carried(s):
 
 
 def run(s):
+    K.hostile_callers(s)
     q = s.tier == 'quick'
     repeated_carried(s)
+    refused_first_merge(s)
     for c in range(60 if q else 4000):
         if s.mine(c):
             content_only(s, c)
